@@ -358,7 +358,15 @@ static void convergence(const Cfg& cfg, vh::Rng& r) {
     if (cfg.kind == NLMS) {
         N = int(std::ceil(60.0 * L / (cfg.mu * (2 - cfg.mu))));
     } else {
-        N = (cfg.mu >= 1.0) ? std::max(40 * L, 6000) : 40 * L + 200;
+        //the initial regularisation lambda^N/load still biases the estimate by about lambda^N/(load*sum_{i<N} lambda^i) (relative);
+        //run until that is below 3e-4 (misalignment 1e-7), at least 40L+200 samples
+        N = 40 * L + 200;
+        long double lamN = powl((long double)cfg.mu, N), S = (cfg.mu < 1.0) ? (1 - lamN) / (1 - (long double)cfg.mu) : (long double)N;
+        while (lamN / ((long double)cfg.leak * S) > 3e-4L && N < 40000) {
+            N += 100;
+            lamN = powl((long double)cfg.mu, N);
+            S = (cfg.mu < 1.0) ? (1 - lamN) / (1 - (long double)cfg.mu) : (long double)N;
+        }
     }
     const int ls = int(r.range(1, L));
     A sys(ls);
